@@ -339,3 +339,46 @@ Qed.
 Example tokenize_example :
   exists l, tokenize "[13CH3:7]C(=O)/C=C\c1ccc%10.Cl%10" = Ok l /\ List.length l = 20%nat.
 Proof. eexists. split; vm_compute; reflexivity. Qed.
+
+(* ------------------------------------------------------------------------------------------------ the tables of the language *)
+(* The character classes and dictionaries of tokenize.py are regenerated from the source on every run (Gen.TokenTables);
+   here they are compared, as sets / finite maps (source order is irrelevant), with what the SMILES language says. *)
+Definition all_ascii : list ascii := map ascii_of_nat (seq 0 256).
+Lemma all_ascii_complete c : In c all_ascii.
+Proof.
+  unfold all_ascii. rewrite <- (ascii_nat_embedding c). apply in_map. apply in_seq. pose proof (nat_ascii_bounded c). lia.
+Qed.
+Definition same_class (a b : string) : bool := forallb (fun c => Bool.eqb (chr_in c a) (chr_in c b)) all_ascii.
+Lemma same_class_spec a b : same_class a b = true -> forall c, chr_in c a = chr_in c b.
+Proof.
+  unfold same_class. rewrite forallb_forall. intros H c. apply eqb_prop. apply H. apply all_ascii_complete.
+Qed.
+
+Theorem char_classes_pinned : forall c,
+  chr_in c bond_chars = chr_in c "-=#:~" /\ chr_in c updown_chars = chr_in c "/\" /\ chr_in c organic_chars = chr_in c "NOPSFI" /\
+  chr_in c aromatic_chars = chr_in c "cnopsb" /\ chr_in c cb_chars = chr_in c "CB".
+Proof.
+  intros c. repeat split; apply same_class_spec; vm_compute; reflexivity.
+Qed.
+
+(* two finite maps with string keys agree: no key is bound twice in the source, and every binding of one is a binding of the other *)
+Definition sdict_eqv {V} (eqv : V -> V -> bool) (a b : list (string * V)) : bool :=
+  nodup_s (map fst a) &&
+  forallb (fun kv => match sget b (fst kv) with Some v => eqv (snd kv) v | None => false end) a &&
+  forallb (fun kv => match sget a (fst kv) with Some v => eqv (snd kv) v | None => false end) b.
+
+Definition spec_replace : list (string * Z) := [("-", 1); ("=", 2); ("#", 3); (":", 4); ("~", 8)]%string.
+Definition spec_not : list (string * list Z) := [("-", [2; 3; 4]); ("=", [1; 3; 4]); ("#", [1; 2; 4]); (":", [1; 2; 3])]%string.
+(* a charge is written as sign and digit 1-4, or as the sign repeated 1-4 times *)
+Definition spec_charge : list (string * Z) :=
+  [("+", 1); ("+1", 1); ("+2", 2); ("+3", 3); ("+4", 4); ("++", 2); ("+++", 3); ("++++", 4);
+   ("-", -1); ("-1", -1); ("-2", -2); ("-3", -3); ("-4", -4); ("--", -2); ("---", -3); ("----", -4)]%string.
+Definition spec_aromatic : list string := ["c"; "n"; "o"; "p"; "s"; "as"; "se"; "b"; "te"]%string.
+
+Theorem dicts_pinned :
+  sdict_eqv Z.eqb replace_dict spec_replace = true /\
+  sdict_eqv (list_eqb Z.eqb) not_dict spec_not = true /\
+  sdict_eqv Z.eqb charge_dict spec_charge = true /\
+  forallb (fun x => smem x spec_aromatic) aromatic_elements && forallb (fun x => smem x aromatic_elements) spec_aromatic = true.
+Proof. repeat split; vm_compute; reflexivity. Qed.
+
